@@ -51,6 +51,32 @@ def apply_pre(a, pre):
                 if not pred:
                     return None
                 a = a.join(a.negate().negate())
+            elif step == 'warm':
+                # history only: a round of calls on this very object (and whatever they may leave behind on it or in the
+                # library), results discarded; the object itself is what the next step derives from
+                for alias in sorted({n.token[1:] for n in astx.preorder(a) if astx.cname(n) == 'HplVarReference'})[:3] + ['Zz']:
+                    try:
+                        rw.refactor_reference(a, alias)
+                    except Exception:
+                        pass
+                for fn in (rw.split_and, str, hash, lambda x: x.external_references(), lambda x: x.contains_self_reference()):
+                    try:
+                        fn(a)
+                    except Exception:
+                        pass
+                if ev.closed_ok(astx.to_model(a)):
+                    try:
+                        rw.simplify(a)
+                    except Exception:
+                        pass
+            elif step.startswith('rename:'):
+                # a copy with one alias renamed, made by the library itself (replace_var_reference is built on but())
+                from hpl.ast import HplVarReference
+
+                _, old, new = step.split(':')
+                a = a.replace_var_reference(old, HplVarReference('@' + new))
+            elif step.startswith('this_to_var:'):
+                a = rw.replace_this_with_var(a, step.split(':')[1])
             elif step == 'this_var_this':
                 a = rw.replace_var_with_this(rw.replace_this_with_var(a, 'V9'), 'V9')
             else:
